@@ -289,6 +289,15 @@ class Check(core.CheckBase):
                 used.append('unknown-member')
             separators = (rng.choice([',', ', ', ' , ', ',\n']), rng.choice([':', ': ', ' : ']))
             text = json.dumps(dict(items), separators=separators)
+            if rng.random() < 0.35 and isinstance(document.get('max_age'), int) and not isinstance(document.get('max_age'), bool):
+                # RFC 8259 6: the same number written with a fraction part of zero or with an exponent
+                number = document['max_age']
+                plain = '"max_age"%s%d' % (separators[1], number)
+                if text.count(plain) == 1 and not text[text.index(plain) + len(plain):][:1].isdigit():
+                    spelled = rng.choice(['%d.0' % number, '%d.000' % number, '%dE0' % number, '%de+0' % number] + (
+                        ['%de1' % (number // 10), '%d.0e+1' % (number // 10)] if number and number % 10 == 0 else []))
+                    text = text.replace(plain, '"max_age"%s%s' % (separators[1], spelled))
+                    used.append('number-spelling')
             if rng.random() < 0.3:
                 text = ' ' + text + ' '
             used.append('whitespace')
